@@ -138,6 +138,33 @@ Theorem C12_merge_keeps_user_edited :
 Proof. exact merge_keeps_user_edited. Qed.
 Print Assumptions C12_merge_keeps_user_edited.
 
+(* a path ends up in merge_modified() only when the merge wrote its content (OTHER's text or text_merge's
+   output): the untouched local file -- in particular one that is merely renamed -- is never recorded, so a
+   later revert cannot mistake the user's edit for merge output *)
+Theorem C12_merge_records_only_written :
+  forall o base this tv sid other rs r,
+  merge_entry o base this tv sid other rs = Some r -> r_mm r = true ->
+  exists ot, other = Some ot /\
+    (r_main r = Some (text ot)
+     \/ exists ls flag, text_merge o (base_lines base) this ot rs = Some (ls, flag) /\ r_main r = Some (text ls)).
+Proof. exact merge_recorded_was_written. Qed.
+Print Assumptions C12_merge_records_only_written.
+
+(* ---- switch --store ---- *)
+
+(* a refused switch (ChangesAlreadyStored) changes nothing *)
+Theorem C12_switch_refused_unchanged :
+  forall st op st', sstep st op = (st', true) -> st' = st.
+Proof. exact sstep_refused. Qed.
+Print Assumptions C12_switch_refused_unchanged.
+
+(* any sequence of switches (plain or --store, refused or not): the uncommitted work in the tree plus what the
+   two branches have stored stays the same set *)
+Theorem C12_switch_store_conserves_work :
+  forall ops st x, forallb is_switch ops = true -> (In x (all_work st) <-> In x (all_work (srun st ops))).
+Proof. exact switch_store_conserves. Qed.
+Print Assumptions C12_switch_store_conserves_work.
+
 (* ---- uncommit ---- *)
 
 (* the tree side: no file, inventory entry or merge-hash changes (tied by the uncommit cases of the run) *)
